@@ -300,6 +300,9 @@ def gen_word(rng, lo=1, hi=8, pool=None):
     while True:
         p = pool or rng.choice(POOLS)
         w = ''.join(rng.choice(p) for _ in range(rng.randint(lo, hi)))
+        if pool is None and rng.random() < 0.04:
+            # words that begin like an operator without being one ('s=foo', 's', '<inx', 's>'-free forms)
+            w = rng.choice(['s=', 's', '<i', '<o', '<all', 's=s', 'ss=']) + w
         if valid_word(w):
             return w
 
